@@ -38,6 +38,9 @@ type c12Case struct {
 	Logins []c12Login   `json:"logins"`
 	// Outage (mode remote-ok): the first Outage calls to the master fail at transport level (master down), the later ones get through
 	Outage int `json:"outage,omitempty"`
+	// Burst (mode local): so many distinct upgradeable users log in at the same moment, while as many password changes are in flight
+	// (the agent may drop upgrades then); afterwards, on the idle agent, each of them logs in again and must be upgraded
+	Burst int `json:"burst,omitempty"`
 }
 
 var frontends = []string{"store", "sasl-callback", "basic-auth", "api-authenticate", "ldap-bind", "api-update-oldpw"}
@@ -49,6 +52,9 @@ func genC12(t *rapid.T) c12Case {
 	c.Tmp = rapid.SampledFrom([]string{"", "", "", "dir", "file", "leftovers", "leftovers"}).Draw(t, "tmp")
 	if c.Mode == "remote-ok" {
 		c.Outage = rapid.SampledFrom([]int{0, 0, 2, 10, 11, 25}).Draw(t, "outage")
+	}
+	if c.Mode == "local" {
+		c.Burst = rapid.SampledFrom([]int{0, 0, 12, 30}).Draw(t, "burst")
 	}
 	names := []string{"bob", "Bob", "alice", "b@x-_."}
 	for i, n := 0, rapid.IntRange(1, 4).Draw(t, "nusers"); i < n; i++ {
@@ -137,7 +143,22 @@ func runC12(c c12Case) string {
 	if c.Policy != "" {
 		ptype = "zxcvbn"
 	}
-	e, err := newAgentEnv(c.Cfg, c.Users, upgradesArg(c.Mode), ptype, c.Policy, "")
+	allUsers := append([]seedUser{}, c.Users...)
+	var burstUsers, fillUsers []seedUser
+	if c.Burst > 0 {
+		old := c.Cfg.Sets[0].ID
+		for _, s := range c.Cfg.Sets {
+			if s.ID != c.Cfg.Default {
+				old = s.ID
+			}
+		}
+		for i := 0; i < c.Burst; i++ {
+			burstUsers = append(burstUsers, seedUser{Name: fmt.Sprintf("burst-%d", i), PW: fmt.Sprintf("zq9#Lm2$vX7@pR4-%d", i), PID: old})
+			fillUsers = append(fillUsers, seedUser{Name: fmt.Sprintf("fill-%d", i), PW: fmt.Sprintf("Xv8!kQ3&nB6^tY1-%d", i), PID: c.Cfg.Default})
+		}
+		allUsers = append(append(allUsers, burstUsers...), fillUsers...)
+	}
+	e, err := newAgentEnv(c.Cfg, allUsers, upgradesArg(c.Mode), ptype, c.Policy, "")
 	if err != nil {
 		return "VERIF-INFRA " + err.Error()
 	}
@@ -179,7 +200,7 @@ func runC12(c c12Case) string {
 		}
 	}
 	pid := map[string]uint{}
-	for _, u := range c.Users {
+	for _, u := range allUsers {
 		pid[u.Name] = u.PID
 	}
 	mpid := map[string]uint{}
@@ -271,6 +292,53 @@ func runC12(c c12Case) string {
 			}
 			break
 		}
+	}
+	if c.Burst > 0 && len(burstUsers) > 0 && burstUsers[0].PID != c.Cfg.Default {
+		var accepted, changed atomic.Int64
+		for i := range burstUsers {
+			bu, fu := burstUsers[i], fillUsers[i]
+			go func() {
+				if ok, _, _, _ := e.iface.Authenticate(bu.Name, bu.PW); ok {
+					accepted.Add(1)
+				}
+			}()
+			go func() {
+				if e.iface.Update(fu.Name, fu.PW+"-changed") == nil {
+					changed.Add(1)
+				}
+			}()
+		}
+		synctest.Wait()
+		if int(accepted.Load()) != c.Burst || (int(changed.Load()) != c.Burst && c.Tmp != "file") {
+			return fmt.Sprintf("VIOLATION C12: burst of %d logins and %d password changes: %d logins accepted, %d changes acknowledged", c.Burst, c.Burst, accepted.Load(), changed.Load())
+		}
+		dropped := 0
+		for _, bu := range burstUsers {
+			if _, _, upg, _, _ := e.s.dir.Authenticate(bu.Name, bu.PW); upg {
+				dropped++
+			}
+		}
+		vlib.Class("burst-of-logins-of-upgradeable-users-during-password-changes")
+		if dropped > 0 {
+			vlib.Class("burst:some-upgrades-were-dropped")
+		}
+		// the agent is idle now: each of them logs in again, one at a time, and must end up upgraded
+		for _, bu := range burstUsers {
+			before := vlib.TakeSnap(e.base)
+			if acc, _ := login(e, mux, "store", bu.Name, bu.PW); !acc {
+				return fmt.Sprintf("VIOLATION C12: login of %q refused after the burst", bu.Name)
+			}
+			synctest.Wait()
+			must := pid[bu.Name] != c.Cfg.Default && policyPasses(c.Policy, bu.PW, bu.Name) && c.Tmp != "file"
+			if _, _, upg, _, _ := e.s.dir.Authenticate(bu.Name, bu.PW); !upg {
+				pid[bu.Name], must = c.Cfg.Default, false // upgraded during the burst already
+				before = vlib.TakeSnap(e.base)
+			}
+			if msg := judgeUpgrade(e, pid, bu, before, must, "local"); msg != "" {
+				return msg + fmt.Sprintf(" (a login on the idle agent after a burst of %d logins during which %d upgrades had been dropped)", c.Burst, dropped)
+			}
+		}
+		vlib.NT("c12burst", c.Burst, dropped > 0, c.Policy != "", c.Tmp)
 	}
 	for i, l := range c.Logins {
 		u := c.Users[l.U]
